@@ -1190,17 +1190,19 @@ impl NodeId {
     pub fn remove_subtree<T>(self, arena: &mut Arena<T>) {
         self.detach(arena);
 
-        // use a preorder traversal to remove node.
+        // Remove the nodes bottom-up: descend to a leaf, remove it (which
+        // unlinks it from its parent and frees it), and continue with its
+        // parent. `self` has no parent after `detach()`, so the walk ends once
+        // `self` itself has been removed, and no removed node keeps a link.
         let mut cursor = Some(self);
         while let Some(id) = cursor {
-            arena.free_node(id);
             let node = &arena[id];
-            cursor = node.first_child.or(node.next_sibling).or_else(|| {
-                id.ancestors(arena) // traverse ancestors upwards
-                    .skip(1) // skip the starting node itself
-                    .find(|n| arena[*n].next_sibling.is_some()) // first ancestor with a sibling
-                    .and_then(|n| arena[n].next_sibling) // the sibling is the new cursor
-            });
+            if let Some(child) = node.first_child {
+                cursor = Some(child);
+            } else {
+                cursor = node.parent;
+                id.remove(arena);
+            }
         }
     }
 
